@@ -8,7 +8,7 @@ from typing import Any, Dict, Iterable, List, Optional, Set, Tuple
 
 from oracle.metamodel import MetaModel
 from oracle.pairing import Decl, all_class_decls
-from oracle.pytypes import Unmappable, expected_annotation, has_forward_ref
+from oracle.pytypes import Unmappable, annotation_matches, contains_anonymous, expected_annotation, has_forward_ref
 
 
 @dataclass
@@ -171,6 +171,9 @@ def check_classes(live, mm: MetaModel, decls: Optional[List[Decl]] = None) -> Ta
                         elif p.get("_absent"):
                             exp = type(None)
                             ok = _ann_eq(a.type, typing.Optional[type(None)]) or a.type is type(None)
+                        elif contains_anonymous(t):
+                            exp = "<structural match of the anonymous literal / and type>"
+                            ok = annotation_matches(live, mm, a.type, t, bool(p.get("optional")))
                         else:
                             exp = expected_annotation(mm, T, t, bool(p.get("optional")), litfind)
                             ok = _ann_eq(a.type, exp)
